@@ -569,6 +569,7 @@ func (g *pktGen) ipv4(sel int, optWords int, fragMode int) {
 	g.l4body(sel, proto, false, f)
 	w.Put16(lenOff, uint16(w.Len()-start))
 	w.Put16(csumOff, pktChecksum(w.B[start:hdrEnd]))
+	w.MarkSum(csumOff, start, hdrEnd-start)
 }
 
 // ipv4Options fills exactly n bytes (multiple of 4, <= 40) with well-formed options.
@@ -744,7 +745,7 @@ func (g *pktGen) quotedIPv4() []byte {
 func (g *pktGen) icmp4(f pktFrag) {
 	w := g.w
 	start := w.Len()
-	c := g.r.Pick(5, 2, 2, 1, 1)
+	c := g.r.Pick(5, 2, 2, 1, 1, 2)
 	if f.alignFrom >= 0 {
 		c = 0 // only echo messages get big enough to be fragmented
 	}
@@ -782,9 +783,39 @@ func (g *pktGen) icmp4(f pktFrag) {
 		w.U16(g.u16())
 		w.U16(g.u16())
 		w.Bytes(g.r.Bytes(12))
+	case 5: // multi-part message (RFC 4884): padded original datagram + extension structure
+		typ := []uint8{3, 11, 12}[g.r.Intn(3)]
+		w.MU8(typ, "icmp.type")
+		w.U8(uint8(g.r.Intn(2)))
+		w.U16(0)
+		if typ == 12 {
+			w.U8(uint8(g.r.Intn(20))) // pointer
+		} else {
+			w.U8(0)
+		}
+		words := g.r.Range(32, 40) // at least 128 bytes of original datagram, zero padded
+		w.MU8(uint8(words), "icmp.mp.length")
+		w.U16(0)
+		q := g.quotedIPv4()
+		w.Bytes(q)
+		w.Zero(4*words - len(q))
+		es := w.Len()
+		w.MU8(0x20, "icmp.ext.version")
+		w.U8(0)
+		w.U16(0)
+		for i, nobj := 0, g.r.Range(0, 3); i < nobj; i++ {
+			n := 4 * g.r.Range(0, 4)
+			w.MU16(uint16(4+n), "icmp.ext.objlen")
+			w.U8(uint8(g.r.Range(1, 3))) // MPLS label stack, interface information, ...
+			w.U8(1)
+			w.Bytes(g.r.Bytes(n))
+		}
+		w.Put16(es+2, pktChecksum(w.B[es:]))
+		w.MarkSum(es+2, es, w.Len()-es)
 	}
 	if f.alignFrom < 0 {
 		w.Put16(csumOff, pktChecksum(w.B[start:]))
+		w.MarkSum(csumOff, start, w.Len()-start)
 	} else {
 		w.Put16(csumOff, g.nz16())
 	}
@@ -815,6 +846,7 @@ func (g *pktGen) igmpV1V2(v1 bool) {
 		w.Bytes(g.ip4addr(true))
 	}
 	w.Put16(start+2, pktChecksum(w.B[start:]))
+	w.MarkSum(start+2, start, w.Len()-start)
 }
 
 func (g *pktGen) igmpV3Query(nsrc int) {
@@ -835,6 +867,7 @@ func (g *pktGen) igmpV3Query(nsrc int) {
 		w.Bytes(g.ip4addr(false))
 	}
 	w.Put16(start+2, pktChecksum(w.B[start:]))
+	w.MarkSum(start+2, start, w.Len()-start)
 }
 
 // igmpV3Record writes one group record with nsrc sources and aux 32-bit words of aux data.
@@ -866,6 +899,7 @@ func (g *pktGen) igmpV3Report(ngroups, maxSrc int) {
 		g.igmpV3Record(g.r.Range(0, maxSrc), aux)
 	}
 	w.Put16(start+2, pktChecksum(w.B[start:]))
+	w.MarkSum(start+2, start, w.Len()-start)
 }
 
 // ---------------------------------------------------------------------------------------
